@@ -94,20 +94,23 @@ pub struct ConcCheck {
     pub max_ops: usize,
     pub opts: ExecOpts,
     pub judge: fn(&Prog, &ConcOut) -> Result<(bool, Vec<(&'static str, u64)>), JudgeErr>,
-    pub mk_probe: fn(&Prog) -> Option<(ProbeSel, ProbeFn)>,
+    pub mk_probe: Option<fn(&Prog, &std::sync::Arc<crate::seq::FMap>, std::sync::Arc<std::sync::Mutex<ProbeData>>) -> (ProbeSel, ProbeFn)>,
 }
 
-fn no_probe(_: &Prog) -> Option<(ProbeSel, ProbeFn)> {
-    None
-}
+pub const NO_PROBE: Option<fn(&Prog, &std::sync::Arc<crate::seq::FMap>, std::sync::Arc<std::sync::Mutex<ProbeData>>) -> (ProbeSel, ProbeFn)> = None;
 
 impl ConcCheck {
+    fn maker(&self) -> Option<ProbeMaker<'_>> {
+        match &self.mk_probe {
+            Some(f) => Some(f as ProbeMaker<'_>),
+            None => None,
+        }
+    }
     pub fn run(&self, ctx: &Ctx, pool: &Pool, salt: u64, programs: u32, budget: &Budget, out: &mut ShardOut) {
         let before = out.violations.len();
         let strat = prog_strategy(self.mix, self.max_threads, self.max_ops);
         drive_n(ctx, self.sub, ctx.shard_seed(salt), programs, 120, strat, out, |prog| {
-            let mkp = || (self.mk_probe)(prog);
-            let ex = explore(pool, prog, budget, &self.opts, &mkp, &self.judge);
+            let ex = explore(pool, prog, budget, &self.opts, self.maker(), &self.judge);
             match ex.failure {
                 Some((sched, prop, msg)) => Err(CaseFail { prop, msg: format!("{} [after preemptions {:?}]", msg, sched.switches) }),
                 None => Ok(CaseInfo {
@@ -126,10 +129,9 @@ impl ConcCheck {
         for v in out.violations.iter_mut().skip(before) {
             if let Some(case) = v.replay.get("case").cloned() {
                 if let Ok(prog) = serde_json::from_value::<Prog>(case) {
-                    let mkp = || (self.mk_probe)(&prog);
-                    let ex = explore(pool, &prog, budget, &self.opts, &mkp, &self.judge);
+                    let ex = explore(pool, &prog, budget, &self.opts, self.maker(), &self.judge);
                     if let Some((sched, _, _)) = ex.failure {
-                        let min = minimize_schedule(pool, &prog, &sched, &self.opts, &mkp, &self.judge);
+                        let min = minimize_schedule(pool, &prog, &sched, &self.opts, self.maker(), &self.judge);
                         v.replay = serde_json::json!({"sub": self.sub, "case": ConcCase { prog, schedule: Some(min.switches) }});
                     } else {
                         v.replay = serde_json::json!({"sub": self.sub, "case": ConcCase { prog, schedule: None }});
@@ -148,15 +150,14 @@ impl ConcCheck {
                 Err(e) => return Err(CaseFail { prop: self.asked.into(), msg: format!("bad replay file: {}", e) }),
             },
         };
-        let mkp = || (self.mk_probe)(&cc.prog);
         match cc.schedule {
             Some(sw) => {
-                let spec = SchedSpec { switches: sw, probe: mkp(), ..Default::default() };
+                let spec = SchedSpec { switches: sw, probe: self.maker(), ..Default::default() };
                 let out = exec(pool, &cc.prog, spec, &self.opts, None);
                 (self.judge)(&cc.prog, &out).map(|_| ()).map_err(|(p, m)| CaseFail { prop: p, msg: m })
             }
             None => {
-                let ex = explore(pool, &cc.prog, budget, &self.opts, &mkp, &self.judge);
+                let ex = explore(pool, &cc.prog, budget, &self.opts, self.maker(), &self.judge);
                 match ex.failure {
                     Some((sched, prop, msg)) => Err(CaseFail { prop, msg: format!("{} [after preemptions {:?}]", msg, sched.switches) }),
                     None => Ok(()),
@@ -168,8 +169,8 @@ impl ConcCheck {
 
 pub fn budget_for(ctx_tier: Tier, seed: u64) -> Budget {
     match ctx_tier {
-        Tier::Quick => Budget { single: 400, double: 60, tapes: 24, tape_seed: seed },
-        Tier::Thorough => Budget { single: 4000, double: 2500, tapes: 200, tape_seed: seed },
+        Tier::Quick => Budget { single: 400, double: 60, coarse2: 200, tapes: 24, tape_seed: seed },
+        Tier::Thorough => Budget { single: 4000, double: 2500, coarse2: 2000, tapes: 200, tape_seed: seed },
     }
 }
 
@@ -188,9 +189,9 @@ pub const C01: ConcCheck = ConcCheck {
     mix: Mix::PerKey,
     max_threads: 3,
     max_ops: 3,
-    opts: ExecOpts { collect_events: false, hold_refs: true, retire_reachability: false, quiescent_check: true, ledger_check: false },
+    opts: ExecOpts::DEFAULT,
     judge: c01_judge,
-    mk_probe: no_probe,
+    mk_probe: NO_PROBE,
 };
 
 fn c01_shard(ctx: &Ctx, out: &mut ShardOut) {
@@ -210,8 +211,8 @@ fn c05c_judge(_prog: &Prog, out: &ConcOut) -> Result<(bool, Vec<(&'static str, u
     let (rs, tr) = crossed(out);
     Ok((rs || tr, std_classes(out, 0)))
 }
-pub const C05C: ConcCheck = ConcCheck { asked: "C05", sub: "conc", mix: Mix::Readers, max_threads: 3, max_ops: 3, opts: C01.opts, judge: c05c_judge, mk_probe: no_probe };
-pub const C05R: ConcCheck = ConcCheck { asked: "C05", sub: "conc-resize", mix: Mix::Resize, max_threads: 3, max_ops: 3, opts: C01.opts, judge: c05c_judge, mk_probe: no_probe };
+pub const C05C: ConcCheck = ConcCheck { asked: "C05", sub: "conc", mix: Mix::Readers, max_threads: 3, max_ops: 3, opts: C01.opts, judge: c05c_judge, mk_probe: NO_PROBE };
+pub const C05R: ConcCheck = ConcCheck { asked: "C05", sub: "conc-resize", mix: Mix::Resize, max_threads: 3, max_ops: 3, opts: C01.opts, judge: c05c_judge, mk_probe: NO_PROBE };
 
 fn c04c_judge(_prog: &Prog, out: &ConcOut) -> Result<(bool, Vec<(&'static str, u64)>), JudgeErr> {
     base_judge("C04", out)?;
@@ -227,9 +228,9 @@ pub const C04C: ConcCheck = ConcCheck {
     mix: Mix::PerKey,
     max_threads: 3,
     max_ops: 3,
-    opts: ExecOpts { collect_events: false, hold_refs: true, retire_reachability: false, quiescent_check: true, ledger_check: true },
+    opts: ExecOpts { ledger_check: true, ..ExecOpts::DEFAULT },
     judge: c04c_judge,
-    mk_probe: no_probe,
+    mk_probe: NO_PROBE,
 };
 
 /* ------------------------------- C08 ------------------------------- */
@@ -275,7 +276,7 @@ fn c08_judge(prog: &Prog, out: &ConcOut) -> Result<(bool, Vec<(&'static str, u64
     Ok((overlapping_computes > 0, classes))
 }
 
-pub const C08: ConcCheck = ConcCheck { asked: "C08", sub: "rmw", mix: Mix::Compute, max_threads: 3, max_ops: 3, opts: C01.opts, judge: c08_judge, mk_probe: no_probe };
+pub const C08: ConcCheck = ConcCheck { asked: "C08", sub: "rmw", mix: Mix::Compute, max_threads: 3, max_ops: 3, opts: C01.opts, judge: c08_judge, mk_probe: NO_PROBE };
 
 fn c08_shard(ctx: &Ctx, out: &mut ShardOut) {
     let pool = Pool::new();
@@ -312,7 +313,7 @@ fn c13_judge(prog: &Prog, out: &ConcOut) -> Result<(bool, Vec<(&'static str, u64
     Ok((raced > 0 && rejected > 0, classes))
 }
 
-pub const C13: ConcCheck = ConcCheck { asked: "C13", sub: "retain", mix: Mix::Retain, max_threads: 3, max_ops: 3, opts: C01.opts, judge: c13_judge, mk_probe: no_probe };
+pub const C13: ConcCheck = ConcCheck { asked: "C13", sub: "retain", mix: Mix::Retain, max_threads: 3, max_ops: 3, opts: C01.opts, judge: c13_judge, mk_probe: NO_PROBE };
 
 fn c13_shard(ctx: &Ctx, out: &mut ShardOut) {
     let pool = Pool::new();
@@ -350,9 +351,9 @@ pub const C11: ConcCheck = ConcCheck {
     mix: Mix::Readers,
     max_threads: 3,
     max_ops: 3,
-    opts: ExecOpts { collect_events: false, hold_refs: false, retire_reachability: false, quiescent_check: true, ledger_check: false },
+    opts: ExecOpts { hold_refs: false, ..ExecOpts::DEFAULT },
     judge: c11_judge,
-    mk_probe: no_probe,
+    mk_probe: NO_PROBE,
 };
 pub const C11B: ConcCheck = ConcCheck { sub: "term-perkey", mix: Mix::PerKey, ..C11 };
 pub const C11C: ConcCheck = ConcCheck { sub: "term-resize", mix: Mix::Resize, ..C11 };
